@@ -58,6 +58,9 @@ func genCase(t *rapid.T, mode string) Case {
 		c.Shutdown = rapid.IntRange(0, 3).Draw(t, "allowShutdown") == 0
 	}
 	c.HonourCtx = rapid.Bool().Draw(t, "honourCtx")
+	if len(c.Faults) > 0 {
+		c.FaultErr = rapid.IntRange(0, 5).Draw(t, "faultErr")
+	}
 	return c
 }
 
